@@ -595,6 +595,13 @@ class DynDiGraph(nx.DiGraph):
                                 self.time_to_edge[t[1] + 1] = {(u, v, "-"): None}
 
                     app[-1][1] = t[1]
+                elif t[1] <= max_end:
+                    # the span is already covered by the last interval: nothing to store,
+                    # and the events inserted above must not survive inside the run
+                    if t[0] > app[-1][0] and (u, v, "+") in self.time_to_edge[t[0]]:
+                        del self.time_to_edge[t[0]][(u, v, "+")]
+                    if e is not None and self.edge_removal and e <= max_end:
+                        del self.time_to_edge[e][(u, v, "-")]
                 else:
                     app.append(t)
         else:
